@@ -536,6 +536,9 @@ class BoundFunction(LazyEval):
         # Must not update owner's namespace to avoid circular updates.
         self.observe(owner._namespace)
         self.altfunc = None
+        # global_names may be asked (get_referents, precedents) before
+        # the first _refresh
+        self._is_names_updated = False
         self.notify()
 
     @property
